@@ -16,3 +16,4 @@ package model
 //@ func (DatabaseModel).NewModelInfo
 //@ modifies nothing
 //@ ensures_ok result0 != nil && fresh(result0) && result0.Obj == obj
+//@ ensures_err istype(result1, "*ovsdb.ErrWrongType")
